@@ -11,8 +11,7 @@ MB = 'stone.backends.python_rsrc.stone_base:'
 
 # ---------------------------------------------------------------- Struct validator
 
-@contract(MV + 'Struct.validate_type_only', properties=['C08', 'C06'], raises=[bv.ValidationError],
-          unfold=['wf', 'wf_struct_def', 'wf_tree_def', 'wf_def_tables'])
+@contract(MV + 'Struct.validate_type_only', properties=['C08', 'C06'], raises=[bv.ValidationError])
 class Struct_validate_type_only:
     params = {'self': Obj(bv.Struct), 'val': AnyVal()}
 
@@ -25,8 +24,7 @@ class Struct_validate_type_only:
         return Raise(bv.ValidationError)
 
 
-@contract(MV + 'Struct.validate_fields_only', properties=['C08', 'C06'], raises=[bv.ValidationError],
-          unfold=['wf', 'wf_struct_def', 'wf_tree_def', 'wf_def_tables', 'wf_def_fields', 'wf_def_names', 'valid'])
+@contract(MV + 'Struct.validate_fields_only', properties=['C08', 'C06'], raises=[bv.ValidationError])
 class Struct_validate_fields_only:
     params = {'self': Obj(bv.Struct), 'val': AnyVal()}
 
@@ -50,8 +48,7 @@ class Struct_validate:
         return S.validate_outcome(self, val)
 
 
-@contract(MV + 'Struct.has_default', properties=['C06'],
-          unfold=['wf', 'wf_struct_def', 'wf_tree_def', 'wf_def_tables'])
+@contract(MV + 'Struct.has_default', properties=['C06'])
 class Struct_has_default:
     params = {'self': Obj(bv.Struct)}
 
